@@ -22,6 +22,11 @@ theorem cpPart_revoke (c : Chan) (n : Nat) : cpPart (revoke c n).c = cpPart c :=
   repeat' split
   all_goals rfl
 
+theorem cpPart_revokeP (c : Chan) (n : Nat) (po : Bool) : cpPart (revokeP c n po).c = cpPart c := by
+  rcases revokeP_cases c n po with e | e <;> rw [e]
+  · exact cpPart_revoke c n
+  · rfl
+
 theorem cpPart_activate (c : Chan) : cpPart (activate c).c = cpPart c := by
   unfold activate fail cpPart
   repeat' split
@@ -69,7 +74,7 @@ theorem chanStep_cpPart (F : Nat → Bytes → Bytes) (c : Chan) (hs : StubFresh
   | getSecret n => rfl
   | getSecretOrNone n => rfl
   | validate n info sv pk => exact cpPart_needReady c (validate · n info sv pk) (cpPart_validate c n info sv pk)
-  | revoke n => exact cpPart_needReady c (revoke · n) (cpPart_revoke c n)
+  | revoke n po => exact cpPart_needReady c (revokeP · n po) (cpPart_revokeP c n po)
   | activate => exact cpPart_needReady c activate (cpPart_activate c)
   | signHolder n => exact cpPart_needReady c (signHolder · n) (cpPart_signHolder c n)
   | signRecovery => exact cpPart_needReady c signRecovery (cpPart_signRecovery c)
@@ -90,7 +95,7 @@ theorem chanStep_cpPart (F : Nat → Bytes → Bytes) (c : Chan) (hs : StubFresh
         · split <;> exact cpPart_validate c n info sv pk
         · rw [cpPart_activate, cpPart_validate]
     · exact cpPart_validate c n info sv pk
-  | hRevoke ver n =>
+  | hRevoke ver n po =>
     simp only [chanStep]
     split
     · rfl
@@ -98,8 +103,8 @@ theorem chanStep_cpPart (F : Nat → Bytes → Bytes) (c : Chan) (hs : StubFresh
       split
       · rfl
       · split
-        · exact cpPart_revoke c (n + 1)
-        · exact cpPart_revoke c (n + 1)
+        · exact cpPart_revokeP c (n + 1) po
+        · exact cpPart_revokeP c (n + 1) po
   | hGetPoint ver n =>
     simp only [chanStep]
     repeat' split
